@@ -205,6 +205,20 @@ Fixpoint strip_twos (fuel : nat) (a t : Z) : Z * Z :=
   | O => (a, t)
   | S f => if (a =? 0) || Z.odd a then (a, t) else strip_twos f (a / 2) (t + 1)
   end.
+(** after the sign: scan, then convert exactly or give up *)
+Definition pf_finish (neg : bool) (body : list byte) : outcome fl :=
+  match pf_scan body false 0 0 0 with
+  | None => Unmodelled                     (* exponent, hex, inf, nan, '_', or malformed *)
+  | Some (mant, nd, fd) =>
+      if nd =? 0 then Err                  (* no digits: syntax error *)
+      else if mant =? 0 then Ok (if neg then FNegZero else FFin 0 0)
+      else if negb (mant mod 5 ^ fd =? 0) then Unmodelled     (* not dyadic: rounding *)
+      else let a0 := mant / 5 ^ fd in
+           let '(odd, t) := strip_twos (S (Z.to_nat (Z.log2 a0))) a0 0 in
+           if (odd <? 2 ^ 53) && (- 1074 <=? t - fd) && (Z.log2 odd + t - fd <? 1024)
+           then Ok (FFin (if neg then - a0 else a0) (- fd))
+           else Unmodelled                 (* needs rounding / overflows *)
+  end.
 Definition parse_float (s : list byte) : outcome fl :=
   match s with
   | [] => Err
@@ -213,18 +227,7 @@ Definition parse_float (s : list byte) : outcome fl :=
       else
       let '(neg, body) := if byte_z c =? 43 then (false, r)
                           else if byte_z c =? 45 then (true, r) else (false, s) in
-      match pf_scan body false 0 0 0 with
-      | None => Unmodelled                     (* exponent, hex, inf, nan, '_', or malformed *)
-      | Some (mant, nd, fd) =>
-          if nd =? 0 then Err                  (* no digits: syntax error *)
-          else if mant =? 0 then Ok (if neg then FNegZero else FFin 0 0)
-          else if negb (mant mod 5 ^ fd =? 0) then Unmodelled     (* not dyadic: rounding *)
-          else let a0 := mant / 5 ^ fd in
-               let '(odd, t) := strip_twos (S (Z.to_nat (Z.log2 a0))) a0 0 in
-               if (odd <? 2 ^ 53) && (- 1074 <=? t - fd) && (Z.log2 odd + t - fd <? 1024)
-               then Ok (FFin (if neg then - a0 else a0) (- fd))
-               else Unmodelled                 (* needs rounding / overflows *)
-      end
+      pf_finish neg body
   end.
 
 (** * scalar helpers *)
@@ -424,23 +427,25 @@ Definition conv_list (f : fmt) (s : src) : outcome (list cval) :=
       end
   end.
 
+(** val.Conv, after the nil test: the switch on the format *)
+Definition conv_body (t : target) (s : src) : outcome rval :=
+  match t with
+  | TScalar f =>
+      if negb (supported f) then Unmodelled else
+      match s with
+      | SScalar x => match conv_scalar f x with
+                     | Ok v => Ok (RScalar v) | Err => Err | Unmodelled => Unmodelled end
+      | SSlice _ _ => match f with FString => Unmodelled (* %v of a slice *) | _ => Err end
+      end
+  | TList f =>
+      if negb (supported f) then Unmodelled else
+      match conv_list f s with Ok l => Ok (RList f l) | Err => Err | Unmodelled => Unmodelled end
+  end.
 (** val.Conv *)
 Definition conv_impl (t : target) (s : src) : outcome rval :=
   match s with
   | SScalar XNil => Ok RNil                            (* if val == nil { return nil, err } *)
-  | _ =>
-    match t with
-    | TScalar f =>
-        if negb (supported f) then Unmodelled else
-        match s with
-        | SScalar x => match conv_scalar f x with
-                       | Ok v => Ok (RScalar v) | Err => Err | Unmodelled => Unmodelled end
-        | SSlice _ _ => match f with FString => Unmodelled (* %v of a slice *) | _ => Err end
-        end
-    | TList f =>
-        if negb (supported f) then Unmodelled else
-        match conv_list f s with Ok l => Ok (RList f l) | Err => Err | Unmodelled => Unmodelled end
-    end
+  | _ => conv_body t s
   end.
 
 (** val.ConvOneOf: the first format that converts wins *)
